@@ -19,7 +19,7 @@ import (
 // extraTargets: forged objects added to the corpus for history-type checks (filled in by the forging plans).
 func extraTargets(rng *rand.Rand) []*Target { return forgedMultiOffenders(rng) }
 
-// cmdCover: a small set of corpus objects on which every lint that judges anything at all judges at least once (greedy set
+// cmdCover: a small set of corpus objects on which every (lint, verdict) pair seen on the corpus is seen at least once (greedy set
 // cover over one sequential pass of the full registry).  Written as cover.json (object ids) for drivers that must start COLD -
 // the free-running concurrent driver lints these objects first, from several goroutines, in a process in which nothing has
 // been linted before, so that whatever a lint or helper builds lazily on first use is built under concurrency.
@@ -38,14 +38,17 @@ func cmdCover(args []string) {
 		}
 		for n, r := range rs.Results {
 			if r != nil && r.Status != lint.NA && r.Status != lint.NE {
-				judged[i][n] = true
-				all[n] = true
+				// covered = every (lint, verdict) pair: the object on which a rule warns usually goes down another path of the rule
+				// (another encoding, another branch of a helper) than the one on which it passes
+				k := fmt.Sprintf("%s|%d", n, r.Status)
+				judged[i][k] = true
+				all[k] = true
 			}
 		}
 	}
 	covered := map[string]bool{}
 	var ids []string
-	for len(covered) < len(all) && len(ids) < 150 {
+	for len(covered) < len(all) && len(ids) < 400 {
 		best, gain := -1, 0
 		for i := range objs {
 			n := 0
